@@ -430,7 +430,7 @@ func cmdCheck(args []string) int {
 			if o, ok := vio[v.Key]; ok {
 				o.Count += v.Count
 				if len(v.Case) < len(o.Case) {
-					o.Case, o.What = v.Case, v.What
+					o.Case, o.What, o.Alt = v.Case, v.What, v.Alt
 				}
 			} else {
 				vio[v.Key] = v
@@ -490,6 +490,15 @@ func cmdCheck(args []string) int {
 		} else if c.Replay != nil && os.Getenv("VERIF_NO_CONFIRM") == "" && !strings.HasPrefix(v.Key, "data-race:") {
 			ok1 := runReplay(self, path)
 			ok2 := runReplay(self, path)
+			if !(ok1 && ok2) && len(v.Alt) > 0 {
+				// the failure depends on what the process did before: replay the case with its context
+				os.Remove(path)
+				v.Case, v.Alt = v.Alt, nil
+				v.What += " [replayed with the calls that preceded it in the exploring process]"
+				path = writeReplay(v)
+				ok1 = runReplay(self, path)
+				ok2 = runReplay(self, path)
+			}
 			if !(ok1 && ok2) {
 				harness += fmt.Sprintf("violation %s did not reproduce deterministically on replay (%v,%v): %s\n", v.Key, ok1, ok2, v.What)
 				continue
